@@ -1,16 +1,14 @@
 #!/bin/sh
-# Warms the Go build cache for every check (offline; nothing is fetched).
+# Warms the Go build cache for every registered check (offline; nothing is fetched).
 export GOFLAGS=-mod=mod GOPROXY=off GOSUMDB=off GOTOOLCHAIN=local
-cd "$(dirname "$0")/harness" || exit 1
-mkdir -p ../.build
-go vet -tags verif ./internal/... >/dev/null 2>&1
+cd "$(dirname "$0")" || exit 1
+mkdir -p .build
 rc=0
-for d in c[0-9][0-9]; do
-  [ -d "$d" ] || continue
-  go test -c -tags verif -vet=off -o ../.build/$d.test ./$d || rc=1
+./check --list | while read id pkg race; do
+  if [ "$race" = race ]; then
+    (cd harness && go test -c -race -tags verif -vet=off -o ../.build/$pkg-race.test ./$pkg) || echo "setup: race build of $pkg failed" >&2
+  fi
+  (cd harness && go test -c -tags verif -vet=off -o ../.build/$pkg.test ./$pkg) || { echo "setup: build of $pkg failed" >&2; touch .build/setup-failed; }
 done
-# race builds for the properties that use the detector as an oracle
-for d in $(cat ../race_pkgs.txt 2>/dev/null); do
-  go test -c -race -tags verif -vet=off -o ../.build/$d-race.test ./$d || rc=1
-done
-exit $rc
+if [ -e .build/setup-failed ]; then rm -f .build/setup-failed; exit 1; fi
+exit 0
